@@ -5,6 +5,7 @@
 #endif
 #include "../common/docgen.hpp"
 #include "../common/parsehelp.hpp"
+#include <functional>
 using namespace vh;
 using cm::Value;
 
@@ -76,6 +77,20 @@ static void scan_cont(const cm::Container &c, Scan &sc, int depth) {
     for (auto &f : c.frames) scan_cont(f, sc, depth + 1);
 }
 
+static std::string run_case(const CaseFile &c);
+// F-TABLE-WRAP confirmation: the same document with every table rewritten as the list [key value key value ...] (same tokens, but free
+// to wrap anywhere) writes and round-trips; then a cif_write failure of the original is the table-entry layout defect and nothing else
+static bool detabled_ok(const cm::Doc &d, const CaseFile &c) {
+    std::function<void(cm::Value &)> detable = [&](cm::Value &v) {
+        if (v.k == cm::Value::TABLE) { std::vector<cm::Value> e; for (auto &kv : v.entries) { e.push_back(cm::Value::chr(kv.first, true)); e.push_back(kv.second); } v = cm::Value::list(e); }
+        if (v.k == cm::Value::LIST) for (auto &x : v.elems) detable(x);
+    };
+    std::function<void(cm::Container &)> walk = [&](cm::Container &k) { for (auto &l : k.loops) for (auto &r : l.rows) for (auto &v : r) detable(v); for (auto &f : k.frames) walk(f); };
+    cm::Doc d2 = d; for (auto &b : d2.blocks) walk(b);
+    CaseFile c3 = c; c3.set("doc", cm::ser_plain(d2)); c3.seti("strict", 1);
+    return run_case(c3).empty();
+}
+
 static std::string run_case(const CaseFile &c) {
     cm::Doc d;
     if (!cm::parse_doc(c.get("doc"), d)) return "bad case file (doc)";
@@ -99,11 +114,13 @@ static std::string run_case(const CaseFile &c) {
         rc = cif_write(f, wo, cif);
         fclose(f);
         bytes.assign(mem ? mem : "", memlen);
+        if (const char *dp = getenv("VERIF_DUMP_OUTPUT")) { FILE *df = fopen(dp, "wb"); if (df) { fwrite(bytes.data(), 1, bytes.size(), df); fclose(df); } }   // triage aid
         if (version == 2) {
             if (rc == CIF_DISALLOWED_VALUE && sc.key_hard) { label("refused-key"); break; }
             // known finding F-TABLE-WRAP: a table entry's value is written without wrapping right after the colon; when it does not
             // fit on the rest of the line cif_write gives up with CIF_OVERLENGTH_LINE.  Excluded (and counted) unless the case is strict.
-            if (rc == CIF_OVERLENGTH_LINE && sc.table_entry && !c.geti("strict")) { count_excluded("F-TABLE-WRAP"); label("excluded:F-TABLE-WRAP"); break; }
+            // (a nested list / table whose opening bracket does not fit gives CIF_ERROR instead.)  Confirmed positively by detabled_ok().
+            if ((rc == CIF_OVERLENGTH_LINE || rc == CIF_ERROR) && sc.table_entry && !c.geti("strict") && detabled_ok(d, c)) { count_excluded("F-TABLE-WRAP"); label("excluded:F-TABLE-WRAP"); break; }
             if (rc != CIF_OK) { msg = std::string("cif_write (CIF 2.0) returned ") + cm::code_name(rc) + " for a CIF within the guaranteed domain"; break; }
         } else {
             bool value_pb = sc.composite || sc.nlsemi, char_pb = sc.non11;
@@ -180,7 +197,13 @@ int main(int argc, char **argv) {
         Scan sc; for (auto &b : d.blocks) scan_cont(b, sc, 0);
         CaseFile c2 = c; c2.seti("strict", 1);
         std::string m = run_case(c2);
-        if (sc.table_entry && m.find("returned CIF_OVERLENGTH_LINE") != std::string::npos) return std::string("F-TABLE-WRAP");
+        // F-TABLE-WRAP: the value of a table entry cannot be wrapped onto a new line after "key:"; a scalar value that does not fit
+        // gives CIF_OVERLENGTH_LINE, a nested list / table whose opening bracket does not fit gives CIF_ERROR.  The classification is
+        // confirmed positively: the same document with every table rewritten as the list [key value key value ...] (same tokens, but
+        // free to wrap anywhere) must write and round-trip -- otherwise the failure is not the table-entry layout and is reported.
+        if (sc.table_entry && (m.find("returned CIF_OVERLENGTH_LINE") != std::string::npos || m.find("returned CIF_ERROR") != std::string::npos)) {
+            if (detabled_ok(d, c2)) return std::string("F-TABLE-WRAP");
+        }
         return std::string();
     };
     return engine_main(argc, argv, e);
